@@ -684,6 +684,13 @@ func (r *HeaderFooterResult) FilterFragments(pageIndex int, fragments []text.Tex
 		footerRegion *= scale
 	}
 
+	// Measure the regions from the same reference bounds as detection does:
+	// the page bounds when the content lies within the page, the content
+	// bounds otherwise (see extractCandidates).
+	if !invertedCoords {
+		minY, maxY = 0, pageHeight
+	}
+
 	var filtered []text.TextFragment
 
 	for _, frag := range fragments {
